@@ -141,6 +141,12 @@ def worker(ctx, shard):
                     except Exception:
                         pass
                     nontriv += 1
+        for s in ("", " ", "\n", "\t ", "0", "\u0301", "\u0301\u0301", "a\u0301\u0301\u0301", "\u00e9" * 3):
+            try:
+                X.uni2tex(s)
+            except Exception:
+                pass
+            nontriv += 1
         rng = ctx.rng("pairs")
         pools = _pools()
         for k in range(300):
